@@ -15,7 +15,13 @@ property's clauses are evaluated on the implementation's observations (`spec_che
 Whole executions (`run_sys`, lib/c08sys.py, lib/lossys.py, Model/LossSys.lean): generated event lists - client calls
 (request / close / reconnect / transport read), peer events (deliver any bytes, cut, listener up / down, serve, routing
 activation answered / lost), advance - for max_retry 0..3 run against the real UDSClient over the real transports with a
-scripted peer and against the model; every call's outcome, end time, connection count and the wire log are compared."""
+scripted peer and against the model; every call's outcome, end time, connection count and the wire log are compared.
+
+Several pending readers (`run_pend`, lib/c08pend.py, Model/LossPend.lean): k = 1..5 tasks blocked in `read_diag_request()` /
+`read_frame()` of one real DoIPConnection (separate_diagnostic_message_queue off / on) or HSFZConnection, each with its own
+caller timeout or none, 0..4 messages delivered before, when the connection is lost (eof / reset / close() / ack timeout of a
+concurrent write) or the peer stays silent: every reader's outcome and end time against the model, and the property's
+clauses (every pending read ends, no fabricated / duplicated message, a read after the loss ends at once, close twice)."""
 from __future__ import annotations
 
 import asyncio
@@ -26,6 +32,7 @@ import os
 from common import setup_repo_import
 from lib import lossworld as LW
 from lib import c08sys as CS
+from lib import c08pend as CP
 import vloop
 from vloop import Spin, Stall, vrun
 
@@ -48,7 +55,15 @@ ASSUMPTIONS = [
     "a peer that goes silent on an open line connection cannot be told from a slow one: the client only retries on the "
     "same connection (timeouts never trigger a reconnect); 'recovers through an automatic reconnect' is therefore stated "
     "for losses that surface as ConnectionError / end-of-stream",
-    "one client task uses the transport (C05 covers concurrent users)",
+    "one client task uses the transport (C05 covers concurrent users) - except for the pending-reader cases: k tasks blocked "
+    "in read_diag_request() / read_frame() of one DoIPConnection / HSFZConnection, started in one instant in list order; "
+    "asyncio.Queue getters and asyncio.Lock waiters are served first-in first-out (Model/LossPend.lean hands message j to the "
+    "j-th eligible reader still waiting); timeouts, delivery and loss times are generated pairwise distinct",
+    "pending readers: the ack-timeout loss is generated where the concurrent write can start at all - a pending "
+    "DoIPConnection.read_frame() holds the connection's mutex by design, the write/ack exchange waits behind it (C05's area); "
+    "on the line transports a second concurrent read is refused by asyncio itself (StreamReader.readline raises RuntimeError "
+    "at once while another coroutine waits), so k > 1 pending reads do not exist there and k = 1 is the `Q` event of the "
+    "whole executions",
     "whole executions (Model/LossSys.lean): the event list is one time line; a peer event happens at the time of the "
     "previous event plus the advances in between; between two events of one instant the client runs until it blocks "
     "(12 loop iterations are granted); a deadline that falls exactly on the time of a peer event is not compared (the "
@@ -230,6 +245,8 @@ def _worker(cases):
 
 
 def run_any(c):
+    if "rd" in c:
+        return CP.run_impl(c, _ensure_patched, _CUR)
     return CS.run_impl(c, _ensure_patched, _CUR) if "ev" in c else run_impl(c)
 
 
@@ -512,6 +529,7 @@ def run(ctx):
     for i in (0, len(cases) // 3, len(cases) // 2, len(cases) - 1):
         ctx.sample({"case": cases[i], "impl": impl[i], "model": model[i]})
     run_sys(ctx, nproc)
+    run_pend(ctx, nproc)
     wait_for_ecu_probe(ctx)
     ctx.notes["silence_on_line_transports"] = (
         "a silent peer on tcp-lines / unix-lines only produces timeouts: the client retries on the same connection and ends "
@@ -600,6 +618,70 @@ def run_sys(ctx, nproc):
         ctx.sample({"case": cases[i], "impl": impl[i], "model": model[i]})
 
 
+def run_pend(ctx, nproc):
+    """k readers pending on one DoIP / HSFZ connection at the moment of the loss (lib/c08pend.py, Model/LossPend.lean)"""
+    cases = CP.gen_exhaustive()
+    n_ex = len(cases)
+    cases += CP.gen_sampled(ctx.rng, ctx.pick(1500, 12000) * (3 if ctx.widened else 1))
+    impl = run_impl_many(cases, nproc)
+    model = ctx.lean([CP.model_line(c) for c in cases])
+    viol, ties = {}, {}
+    for c, a, b in zip(cases, impl, model):
+        ctx.ev()
+        ctx.kind("pend:" + c["fl"], "pend-kind:" + c["kind"], f"pend-k:{len(c['rd'])}", f"pend-n:{c['n']}",
+                 "pend-tmo:" + ("all" if all(t is not None for _, t in c["rd"]) else
+                                "none" if all(t is None for _, t in c["rd"]) else "mixed"))
+        ctx.nontrivial(CP.case_key(c))
+        ctx.traces_validated += 1
+        for tok in CP.readers_of(a):
+            ctx.kind("pend-outcome:" + tok.split("@")[0].split(":")[0])
+        sv = CP.spec_check(c, a)
+        for clause, text in sv:
+            k = f"{clause}:{c['fl']}"
+            if k not in viol or CP.small(c) < CP.small(viol[k][0]):
+                viol[k] = (c, a, b, clause, text)
+        if not sv and " ".join(CP.readers_of(a)) != b:
+            k = c["fl"]
+            if k not in ties or CP.small(c) < CP.small(ties[k][0]):
+                ties[k] = (c, a, b)
+    for _, (c, a, b, clause, text) in sorted(viol.items()):
+        ctx.disagree(f"c08pend:{clause}:{CP.model_line(c)}:{c['kind']}", f"{CP.describe(c)}: {text}",
+                     {"case": c, "model_line": CP.model_line(c)}, impl=a, model=b, spec_violated=True, site=_pend_site(c))
+    for _, (c, a, b) in sorted(ties.items()):
+        ctx.disagree(f"c08pend:model-differs:{CP.model_line(c)}:{c['kind']}",
+                     f"{CP.describe(c)}: implementation and model differ in the readers' outcomes",
+                     {"case": c, "model_line": CP.model_line(c)}, impl=a, model=b, spec_violated=False, site=_pend_site(c))
+    ctx.exhaustive_parts.append(
+        f"pending readers: {{DoIPConnection, DoIPConnection(separate_diagnostic_message_queue=True), HSFZConnection}} x k in "
+        f"{{1, 2, 3}} readers x every assignment of {{read_diag_request, read_frame}} x caller timeout {{None, 0.7 s}} to them x "
+        f"{{0, 1, 2}} messages delivered before x loss {{eof, reset, close(), ack timeout of a concurrent write (where the "
+        f"write can start), silent peer}} ({n_ex} cases); k up to 5, other timeouts / times / message counts sampled")
+    ctx.notes["pend_cases"] = len(cases)
+    ctx.notes["pend_spec_violation_classes"] = len(viol)
+    ctx.notes["pend_model_difference_classes"] = len(ties)
+    for i in (0, len(cases) // 2, len(cases) - 1):
+        ctx.sample({"case": cases[i], "impl": impl[i], "model": model[i]})
+
+
+def _pend_site(c):
+    if c["fl"] == "hsfz":
+        return "HSFZConnection.read_frame / _read_worker / close"
+    return "DoIPConnection.read_frame_unsafe / read_diag_request_raw / close"
+
+
+def _replay_pend(ctx, c):
+    a = run_any(c)
+    b = ctx.lean([CP.model_line(c)])[0]
+    print("case  :", json.dumps(c, sort_keys=True))
+    print("what  :", CP.describe(c))
+    print("impl  :", a, " (one token per pending reader in start order, then the concurrent write, a read after the loss, close twice)")
+    print("model :", b)
+    v = CP.spec_check(c, a)
+    for clause, text in v:
+        print(f"property clause violated by the implementation: {clause}: {text}")
+    return 1 if (v or " ".join(CP.readers_of(a)) != b) else 0
+
+
 def _replay_sys(ctx, c):
     a = run_any(c)
     mline = ctx.lean([CS.model_line(c)])[0]
@@ -615,6 +697,8 @@ def _replay_sys(ctx, c):
 
 
 def _replay_one(ctx, c):
+    if "rd" in c:
+        return _replay_pend(ctx, c)
     if "ev" in c:
         return _replay_sys(ctx, c)
     a = run_impl(c)
@@ -680,7 +764,15 @@ def replay(ctx, case):
 
 
 MANIFEST = {
-    "level_text": ("WHOLE EXECUTIONS (Model/LossSys.lean, 15 theorems): for every max_retry = n, every state and every event list "
+    "level_text": ("SEVERAL PENDING READERS (Model/LossPend.lean, 4 theorems): for ANY number k of tasks blocked in read_diag_request() / "
+                   "read_frame() of one DoIPConnection (shared queue + mutex, or separate diagnostic-message queue read without the "
+                   "mutex) or HSFZConnection, each with any caller timeout or none, any number of messages delivered before: once the "
+                   "connection is lost every pending read ends no later than the loss and no later than its own timeout "
+                   "(pend_every_reader_ends), a read with caller timeout ends by it whatever the peer does (pend_timeout_bounds), every "
+                   "reader gets an outcome (pend_all_readers_accounted), returned messages are delivered ones, handed out once, in order, "
+                   "to readers of the right queue (pend_no_fabrication). Tied by running k = 1..3 readers exhaustively (ops x timeout "
+                   "{None, 0.7 s} x 0..2 messages x loss {eof, reset, close(), ack timeout, silence}) and k <= 5 sampled on the real "
+                   "connections under virtual time. WHOLE EXECUTIONS (Model/LossSys.lean, 15 theorems): for every max_retry = n, every state and every event list "
                    "(client calls request / close / reconnect / transport read; peer events deliver any bytes, cut eof / reset / "
                    "silence, listener up / down, serve, routing activation answered / lost; advance) every call with a caller "
                    "timeout t ends within callBudget = sum over the attempts of min(t, ack) + t + ResponsePending budget, plus per "
@@ -713,7 +805,8 @@ MANIFEST = {
                    "DoIP / HSFZ transports, BaseTransport.reconnect and ECU over in-memory peers with a listener that is "
                    "down for a virtual delay: every byte offset of two reply streams per transport x 3 cut kinds x 3 event "
                    "times x restart {0, 0.3, 3, 12 s} x caller timeout {None, 0.5, 5 s} x {transport level, client level}."),
-    "level_note": ("Whole executions: one client task; a hanging TCP connect is bounded by the kernel only; deadline/event ties are "
+    "level_note": ("Pending readers: start in one instant, FIFO queue / lock wake-up order of asyncio trusted, no deadline ties, ack-timeout "
+                   "loss only where the write is not serialised behind a pending read_frame(). Whole executions: one client task; a hanging TCP connect is bounded by the kernel only; deadline/event ties are "
                    "skipped; replies restricted to the 22 f1 90 vocabulary. Partial: real socket errors (EPIPE vs ECONNRESET timing, half-open connections, kernel buffering) are "
                    "represented by the three cut kinds; one client task; silence on a line transport never triggers a "
                    "reconnect (indistinguishable from a slow peer) - recovery is stated for losses that surface as "
